@@ -36,5 +36,38 @@ Example C02_example :
   map (fun w => (length (w_queue w), length (w_picked w))) (ws (run 1 (init 2 [false]) os)) = [(1, 0); (1, 0)].
 Proof. vm_compute. repeat split. Qed.
 
+(* "Connections beyond the limit stay in the listener backlog instead of being dispatched": in every reachable fault-free state in
+   which every worker has exactly L connections in progress no worker is flagged available, and an accept call on any
+   listener — whatever waits in its backlog, whatever is scheduled — returns the state unchanged: nothing is taken from the
+   backlog, nothing is dispatched. *)
+Theorem C02_saturated_unavailable : forall (L : Z) W kinds os,
+  (1 <= L)%Z -> 1 <= W <= 512 ->
+  forallb nf_op os = true -> forallb (tok_ok (length kinds)) os = true ->
+  let st := run L (init W kinds) os in
+  (forall g w, nth_error (ws st) g = Some w ->
+     (Z.of_nat (length (w_queue w)) + Z.of_nat (length (w_picked w)) = L)%Z) ->
+  available (av st) = false.
+Proof. exact saturated_unavailable. Qed.
+
+Theorem C02_beyond_limit_stays : forall (L : Z) W kinds os tok ys,
+  (1 <= L)%Z -> 1 <= W <= 512 ->
+  forallb nf_op os = true -> forallb (tok_ok (length kinds)) os = true ->
+  let st := run L (init W kinds) os in
+  (forall g w, nth_error (ws st) g = Some w ->
+     (Z.of_nat (length (w_queue w)) + Z.of_nat (length (w_picked w)) = L)%Z) ->
+  accept L st tok ys = (st, ys).
+Proof. exact saturated_accept_noop. Qed.
+
+(* non-vacuity: limit 1, two workers, both saturated, a third client waits; the listener event changes nothing *)
+Example C02_stays_example :
+  let os := [E (Connect 0 1); E (Connect 0 2); Turn []; E (Connect 0 3)] in
+  let st := run 1 (init 2 [false]) os in
+  forallb nf_op os = true /\ forallb (tok_ok 1) os = true /\
+  map (fun w => length (w_queue w) + length (w_picked w)) (ws st) = [1; 1] /\
+  map l_backlog (lsts (fst (accept 1 st 0 []))) = [[3%N]].
+Proof. vm_compute. repeat split. Qed.
+
 Print Assumptions C02_limit.
 Print Assumptions C02_limit_at_yield.
+Print Assumptions C02_saturated_unavailable.
+Print Assumptions C02_beyond_limit_stays.
